@@ -280,6 +280,11 @@ class Engine:
         time_limit = total_work + n * (3.0 + 8 * max(cfg["stall"]) + max(cfg["start_delay"]) + max(cfg["exit_delay"])) \
             + task_timeout + 60.0
         salt = ch.draw(1000, "salt")
+        # the same Parallel object may have been used before -- possibly for a strict run that was aborted by a failing task
+        reuse = ch.draw(5, "reuse-pool-object") == 0
+        pre_n = 2 + ch.draw(4, "pre-n") if reuse else 0
+        pre_fail = ch.draw(pre_n + 1, "pre-fail") if reuse else 0       # index of the raising id, pre_n = none raises
+        pre_strict = ch.draw(2, "pre-strict") == 1 if reuse else False
 
         sim = Sim(ch, max_steps=20000 + 2500 * n, strategy=strategy, time_limit=time_limit)
         mp = PoolMP(sim, cfg)
@@ -299,6 +304,11 @@ class Engine:
             return [v, ("tail", i)] if as_gen else v
 
         def f(dev_id):
+            if isinstance(dev_id, str) and dev_id.startswith("pre-"):
+                sim.yield_()
+                if dev_id == "pre-%d" % pre_fail:
+                    raise InjectedError("boom " + dev_id)
+                return ("pre", dev_id)
             i = idx_of[repr(dev_id)]
             k = calls[i] = calls.get(i, 0) + 1
             sim.log("task", i, k)
@@ -328,6 +338,8 @@ class Engine:
             return payload(i)
 
         def cb_parent(pool, tr):
+            if repr(tr.device_id) not in idx_of:
+                return tr
             i = idx_of[repr(tr.device_id)]
             if cbdelay[i]:
                 fire(faults, "slow_callback")
@@ -338,6 +350,8 @@ class Engine:
             return tr
 
         def cb_thread(pool, tr):
+            if repr(tr.device_id) not in idx_of:
+                return tr
             i = idx_of[repr(tr.device_id)]
             if cbdelay[i]:
                 fire(faults, "slow_callback")
@@ -368,6 +382,13 @@ class Engine:
                     p.add_callback(cb_thread, in_thread=True)
                 if cbmode == "gen":
                     p.add_callback(cb_gen)
+                if reuse:
+                    try:
+                        for _r in P.Parallel.irun(p, ["pre-%d" % k for k in range(pre_n)], not pre_strict):
+                            pass
+                    except P.PickleSafeException:
+                        fire(probes, "earlier_run_on_the_same_pool_object_aborted")
+                    sim.log("pre-run-done")
                 if use_irun:
                     k = 0
                     for r in p.irun(list(ids), tolerate):
